@@ -314,6 +314,13 @@ pub fn udp_case(seed: u64, case: usize) -> String {
             }
             let _ = client.send_to(&g, srv_addr).await;
         }
+        // failed sends: gossip to an address family the bound socket cannot reach (the OS refuses
+        // the send), several times; later sends must be unaffected
+        for _ in 0..rng.range(1, 3) {
+            let unreachable: SocketAddr = "[::1]:9".parse().unwrap();
+            let _ = handle.gossip(unreachable);
+        }
+        tokio::time::sleep(Duration::from_millis(60)).await;
         // a valid SYN must still be answered
         let mut syn = Vec::new();
         put_header(&mut syn, 0);
